@@ -943,7 +943,7 @@ pub struct CallArg<A> {
 impl CallArg<UntypedExpr> {
     pub fn is_capture_hole(&self) -> bool {
         match &self.value {
-            UntypedExpr::Var { name, .. } => name.contains(CAPTURE_VARIABLE),
+            UntypedExpr::Var { name, .. } => name.starts_with(CAPTURE_VARIABLE),
             _ => false,
         }
     }
